@@ -59,17 +59,21 @@ func (w *wrappedCache) Sync(ctx context.Context, key datastore.Key) error {
 }
 
 func (w *wrappedCache) Close() error {
+	w.manager.muCaches.Lock()
+	defer w.manager.muCaches.Unlock()
+
+	return w.closeLocked()
+}
+
+// closeLocked closes the cache once; the manager's muCaches must be held
+func (w *wrappedCache) closeLocked() error {
 	if w.closed {
 		return nil
 	}
 
-	w.manager.muCaches.Lock()
-
 	w.closed = true
 	err := w.wrappedCache.Close()
 	delete(w.manager.caches, w.id)
-
-	w.manager.muCaches.Unlock()
 
 	return err
 }
@@ -122,8 +126,10 @@ func (l *levelDownCache) Destroy(directory string, dbAddress address.Address) er
 	l.muCaches.Lock()
 	defer l.muCaches.Unlock()
 
+	// the database may have been opened again since the store that is being dropped was
+	// closed: its cache is closed here, with the lock already held
 	if wc, ok := l.caches[keyPath]; ok {
-		wc.Close()
+		_ = wc.closeLocked()
 	}
 
 	if directory != InMemoryDirectory {
